@@ -120,6 +120,45 @@ func unions(run *ev.Run, set *bridge.Set, td *corpus.TypeDef, rng *rand.Rand) {
 			}
 		}
 	}
+	// documents whose only entry names a member the union does not declare: for a union that must carry exactly one
+	// member this is not a value of the type, whatever shape the stranger's value has
+	if td.HasNull {
+		return
+	}
+	declared := map[string]bool{}
+	for _, m := range td.Members {
+		declared[m.Alias] = true
+	}
+	for _, alias := range []string{"long", "int", "string", "Int", "STRING", "string ", "com.example.Nope", "ks.kt.NoSuchType", "$params", ""} {
+		if declared[alias] {
+			continue
+		}
+		for vi, val := range []any{"1", "text", map[string]any{"a": "1", "b": map[string]any{}}, []any{"1", "2"}} {
+			for _, f := range []codec.Format{codec.FormatByName("json-compact"), codec.FormatByName("ror2-header")} {
+				tree := map[string]any{alias: val}
+				var doc string
+				if f.JSON {
+					doc = refcodec.TreeJSON(tree, rng)
+				} else {
+					doc = refcodec.TreeROR2(tree, refcodec.Header, rng)
+				}
+				run.Eval(1)
+				run.Count("union_undeclared_member_cases", 1)
+				q, err := codec.Decode(f, set, full, doc)
+				desc := map[string]any{"generation": GENERATION, "set": set.Name, "type": full, "undeclared_member": alias, "format": f.Name, "document": trunc(doc), "error": errText(err)}
+				switch {
+				case isPanic(err):
+					run.Violation(GENERATION+"/union/decode/panic", desc)
+				case err == nil:
+					got, _ := set.Read(q.Elem(), corpus.R(full))
+					desc["decoded"] = model.Show(got)
+					run.Violation(GENERATION+"/union/decode/invalid-accepted/only-an-undeclared-member", desc)
+				default:
+					run.Distinct(fmt.Sprintf("union|dec-undeclared|%s|%s|%d|%s", full, alias, vi, f.Name))
+				}
+			}
+		}
+	}
 }
 
 func countClass(n int) string {
